@@ -174,8 +174,9 @@ func (r *RtpPackerPayloadAvcHevc) PackNal(nal []byte, maxSize int) (out [][]byte
 				item[0] = NaluTypeAvcFua | nri
 				item[1] = nalType
 			} else {
-				item[0] = NaluTypeHevcFua << 1
-				item[1] = 1 // ffmpeg, rtpenc_h264_hevc.c, func nal_send
+				// rfc7798 4.4.3: PayloadHdr的F、LayerId、TID字段必须和被分片的NALU头一致，只有Type字段换成49
+				item[0] = (nal[0] & 0x81) | (NaluTypeHevcFua << 1)
+				item[1] = nal[1]
 				item[2] = nalType
 			}
 
@@ -200,8 +201,8 @@ func (r *RtpPackerPayloadAvcHevc) PackNal(nal []byte, maxSize int) (out [][]byte
 			item[0] = NaluTypeAvcFua | nri
 			item[1] = nalType | 0x40 // end
 		} else {
-			item[0] = NaluTypeHevcFua << 1
-			item[1] = 1
+			item[0] = (nal[0] & 0x81) | (NaluTypeHevcFua << 1)
+			item[1] = nal[1]
 			item[2] = nalType | 0x40
 		}
 
